@@ -21,6 +21,8 @@ SHAPES = [
     ("lossless", [[1, 1]], False, Q), ("lossless", [[0, 1], [0, 0]], True, Q), ("lossless", [[1, 1], [0, 1]], False, Q),
     ("lossless", [[1, 1]], False, Q, dict(params=dict(built="merge"))), ("lossless", [[0, 1], [0, 0]], False, Q, dict(params=dict(built="merge"))),
     ("inverse", [[1, 1]], False, Q), ("inverse", [[0, 1], [0, 0]], False, Q), ("inverse", [[1, 0], [0, 1]], True, Q),
+    ("inverse", [[0, 0]], False, Q, dict(params=dict(patterns=["^\\d{7}$"]))),
+    ("lossless", [[0, 1]], False, Q, dict(params=dict(patterns=["^\\d{7}$"]))),
     ("lossless", [[1, 1], [1, 1]], True, T, dict(budget=1200, shard=6)),
     ("lossless", [[0, 1], [0, 1], [0, 0]], False, T, dict(budget=1800, shard=8)),
     ("inverse", [[1, 1], [1, 1]], False, T, dict(budget=1800, shard=6)),
